@@ -518,6 +518,15 @@ def b_tuple(xs=()):
 
 
 def b_isinstance(x, t):
+  from . import tensor as _T
+  if isinstance(x, _T.Tensor) and x.tags.get("numpy_owned"):
+    ts_ = t if isinstance(t, tuple) else (t,)
+    if any(c is _T.Tensor for c in ts_):
+      # jnp.ndarray / jax.Array / np.ndarray are all `Tensor` in the model; a restored state leaf is a NumPy array while the
+      # leaf of an uninterrupted run is a jax array: code whose behaviour depends on that test cannot resume identically
+      c = cur()
+      c.fail(f"frame:array-type-test-on-a-caller-owned-state-leaf@{getattr(c, 'site', '')}", kind="frame",
+             detail=f"{x.tags.get('numpy_owned')}: isinstance(leaf, <array type>) distinguishes a restored (NumPy) leaf from a live (jax) one")
   return isinstance(x, t)
 
 
@@ -591,5 +600,6 @@ BUILTINS = {
     "sorted": b_sorted,
     "enumerate": b_enumerate,
     "zip": b_zip,
+    "isinstance": b_isinstance,
     "print": lambda *a, **k: None,
 }
